@@ -147,6 +147,16 @@ def handleFx (fx : Fx) (items : List Sexp) : String :=
       | .ok (some sz) =>
         if sz < 1 then "ok nomatch" else resStr optIntStr (runTempIndexRangeG fx r idx))
     | _, _ => bad
+  | [.atom "matchslice", r, idx, to, minLen] => match parseRange r, idx.int?, to.int?, minLen.int? with
+    -- `(x, rest...)` / `(rest..., y)` on a range: size test, then `run_slice`
+    | some r, some idx, some to, some minLen =>
+      (match rangeSizeG fx r with
+      | .panic => "panic"
+      | .err => "err"
+      | .ok none => "ok nomatch"
+      | .ok (some sz) =>
+        if sz < minLen then "ok nomatch" else resStr pairStr (runSliceRangeG fx r idx (to == 1)))
+    | _, _, _, _ => bad
   | [.atom "sidx", idx, size] => match idx.int?, size.int? with
     | some idx, some size => resStr toString (signedIndexToUnsigned idx size) | _, _ => bad
   | [.atom "rem", a, b] => match a.int?, b.int? with
